@@ -147,6 +147,7 @@ const K_FETCH_PRE: i64 = 4;
 const K_FETCH_POST: i64 = 5;
 const K_ITEM: i64 = 6;
 const K_DYNL: i64 = 7;
+const K_BG: i64 = 8;
 
 /// request (1-based) the ambient owner belongs to; 0 = no owner, 99 = an owner of no request
 fn ambient_owner_req() -> i64 {
@@ -211,6 +212,7 @@ fn probe(env: &Env, probe: i64, kind: i64, slot: Option<i64>) -> String {
 ///  (10 slot child)     StoredValue (slot < 100) / RwSignal (slot >= 100) allocation
 ///  (11 p slot)         leaf reading that handle
 ///  (12 p)              like (2 p); used where the rendering owner does not depend on timing
+///  (13 g p slot)       reactive_graph::spawn(async { gate g; read handle }) — Sandboxed only
 fn build(p: &Sexp, env: &Env) -> AnyView {
     let r = env.req as i64;
     match p.at(0).num() {
@@ -311,6 +313,28 @@ fn build(p: &Sexp, env: &Env) -> AnyView {
             build(p.at(2), env)
         }
         11 => probe(env, p.at(1).num(), K_ITEM, Some(p.at(2).num())).into_any(),
+        13 => {
+            // reactive_graph::spawn: a background task that is wrapped in Sandboxed only (right
+            // arena, no owner): it reads one of the request's handles after awaiting a gate
+            let rx = env.gates[p.at(1).num() as usize].clone();
+            let id = p.at(2).num();
+            let slot = p.at(3).num();
+            let env = env.clone();
+            reactive_graph::spawn(async move {
+                let _ = rx.await;
+                let item = if slot >= 100 {
+                    let h = env.sigs.lock().unwrap().get(&slot).copied();
+                    h.map(|h| h.try_get_untracked().unwrap_or(-1)).unwrap_or(-2)
+                } else {
+                    let h = env.slots.lock().unwrap().get(&slot).copied();
+                    h.map(|h| h.try_get_value().unwrap_or(-1)).unwrap_or(-2)
+                };
+                // no owner is promised to such a task: only the arena item is recorded
+                let e = Event { req: env.req as i64, probe: id, kind: K_BG, owner_req: -7, t0: -7, t1: -7, item };
+                W.with(|w| w.borrow_mut().events.push(e));
+            });
+            "bg".into_any()
+        }
         12 => {
             // a reactive closure in a position where the owner it is rendered under is fixed
             // (not directly in the view a Suspend outside any Suspense resolves to)
@@ -325,7 +349,7 @@ fn build(p: &Sexp, env: &Env) -> AnyView {
 fn max_gate(p: &Sexp) -> i64 {
     let mut m = -1;
     match p.at(0).num() {
-        6 => m = m.max(p.at(1).num()),
+        6 | 13 => m = m.max(p.at(1).num()),
         8 => m = m.max(p.at(2).num()),
         _ => {}
     }
